@@ -29,6 +29,7 @@ ALLOWED_EXT = {
 class Collector:
     def __init__(self):
         self.sites: List[Dict[str, Any]] = []
+        self.rank_cmps: List[Any] = []  # comparisons made by _calculate_rankings (no-ranks case: R3.3)
 
     def add(self, I, node, what: str, msg: str):
         f = I.cur_func()
@@ -47,6 +48,8 @@ def _setup(col: Collector):
                 col.add(I, node, "arith", f"arithmetic ({opname}) on a raw rank/score value: the result depends on the encoding, not only on the order")
 
         def compare(I, node, op, a, b):
+            if I.cur_func().endswith("._calculate_rankings") and isinstance(a, Num) and isinstance(b, Num) and a.const is None and b.const is None:
+                col.rank_cmps.append((I.cur_func(), node, a, b))
             ta, tb = RAW in a.prov, RAW in b.prov
             if ta != tb:
                 other = b if ta else a
@@ -197,6 +200,28 @@ def _job(job) -> List[Dict[str, Any]]:
                     m, fn, ln = where(ev)
                     out.append(dict(rule="R3.3", verdict="HOLDS" if okp else "VIOLATED", module=m, function=fn, construct="default rank of the team at position k is k", line=ln,
                                     message="" if okp else f"without ranks the value standing in for the rank at position k is {short(v)} (term {v.sym}), not k", detail={}))
+        if not found and col.rank_cmps:
+            # other spellings of the competition ranking: the values it compares are read from the stand-in list; a value read at
+            # position p must be p itself (term idx(p))
+            for f_, node_, a_, b_ in col.rank_cmps:
+                found = True
+                syms = [x.sym for x in (a_, b_)]
+                okp = all(s_ is not None and s_[0] == "idx" for s_ in syms)
+                und = any(s_ is None for s_ in syms)
+                out.append(dict(rule="R3.3", verdict="HOLDS" if okp else ("UNDECIDED" if und else "VIOLATED"), module=f_.partition("::")[0], function=f_.partition("::")[2],
+                                construct="default rank of the team at position k is k", line=getattr(node_, "lineno", line),
+                                message="" if okp else f"without ranks the values compared by the ranking are {short(a_)} and {short(b_)} (terms {syms}), not the positions they are read at", detail={}))
+        if not found:
+            # no comparison at all: the ranks returned without ranks given are the positions themselves
+            for ev in I.events:
+                if ev.kind == "return" and ev.data["callee"].endswith("._calculate_rankings") and isinstance(ev.data["val"], Ptr):
+                    s = I.list_seq(oc.world.state, ev.data["val"])
+                    if s is not None and isinstance(s.elem, Num) and s.elem.sym is not None:
+                        found = True
+                        okp = s.elem.sym == ("idx", ivar(s.kvar)) and not (s.flags & {"partial", "reordered"})
+                        m, fn, ln = where(ev)
+                        out.append(dict(rule="R3.3", verdict="HOLDS" if okp else "VIOLATED", module=m, function=fn, construct="default rank of the team at position k is k", line=ln,
+                                        message="" if okp else f"without ranks the rank at position k is {short(s.elem)} (term {s.elem.sym}), not k", detail={}))
         if not found:
             out.append(dict(rule="R3.3", verdict="UNDECIDED", module=mod, function=entry, construct="default ranks", line=line, message="could not locate the default rank values (idiom not recognised)", detail={}))
     return out
